@@ -298,7 +298,10 @@ func TestVerifC05(t *testing.T) {
 	}
 	sort.Strings(bnames)
 	idx := 0
-	use := []string{k1, k3, "fresh"} // existing, colliding-new, non-colliding-new
+	// existing, colliding-new, non-colliding-new, and a new name long enough for its record to reach
+	// across the gap that alignment leaves in front of the first record
+	use := []string{k1, k3, "fresh", "fresh/" + strings.Repeat("n", 42)}
+	useDefault := use
 	var baseNames map[string]bool // the counters really stored in the undamaged base file
 	checkRest := func(desc string, data []byte) {
 		idx++
@@ -351,7 +354,7 @@ func TestVerifC05(t *testing.T) {
 			for _, v := range pend {
 				tot += v
 			}
-			if tot > 7+64+128 {
+			if tot > uint64(1)<<len(use)-1+64+128 {
 				res.Violate("over-count", fmt.Sprintf("pending %d exceeds the increments made: %s", tot, desc), map[string]any{"case": desc})
 			}
 			if tot > 0 {
@@ -372,6 +375,8 @@ func TestVerifC05(t *testing.T) {
 			offs = append(offs, w.Add(n, uint64(10+i)))
 			baseNames[n] = true
 		}
+		zzvC05TableEnd = w.HdrLen + 4 + 4*ref.CFBuckets
+		zzvC05TrueLimit = binary.LittleEndian.Uint32(w.Data[w.HdrLen:])
 		checkRest("R:"+bn+" undamaged", w.Bytes())
 		fields := zzvFields(w, offs, names)
 		vals := zzvDamageValues(w, offs)
@@ -448,7 +453,7 @@ func TestVerifC05(t *testing.T) {
 			use = []string{lnames[0], lnames[8], "fresh"} // a record that survives, one beyond the cut, a new one
 			checkRest(fmt.Sprintf("R4:truncated-to=%d of %d", sz, len(full)), full[:sz])
 		}
-		use = []string{k1, k3, "fresh"}
+		use = useDefault
 	}
 
 	// A counter file grown (sparsely) beyond 4 GiB at rest, with a bucket head and a record just below 2^32:
@@ -504,6 +509,10 @@ func zzvC05DirStates(res *vrep.Result, base string) {
 		{"local-is-file", func(d string) { os.RemoveAll(d + "/local"); os.WriteFile(d+"/local", []byte("x"), 0o666) }},
 		{"weekends-absent", func(d string) { os.Remove(d + "/local/weekends") }},
 		{"weekends-empty", func(d string) { os.WriteFile(d+"/local/weekends", nil, 0o666) }},
+		{"weekends-newline", func(d string) { os.WriteFile(d+"/local/weekends", []byte("\n"), 0o666) }},
+		{"weekends-blanks", func(d string) { os.WriteFile(d+"/local/weekends", []byte(" \t \n"), 0o666) }},
+		{"weekends-nul", func(d string) { os.WriteFile(d+"/local/weekends", []byte("\x00"), 0o666) }},
+		{"weekends-minus", func(d string) { os.WriteFile(d+"/local/weekends", []byte("-"), 0o666) }},
 		{"weekends-9", func(d string) { os.WriteFile(d+"/local/weekends", []byte("9\n"), 0o666) }},
 		{"weekends-x", func(d string) { os.WriteFile(d+"/local/weekends", []byte("x"), 0o666) }},
 		{"weekends-dir", func(d string) { os.Remove(d + "/local/weekends"); os.MkdirAll(d+"/local/weekends", 0o777) }},
@@ -607,8 +616,30 @@ func zzvDamagedField(desc string) string {
 	sort.Strings(fields)
 	for _, f := range fields {
 		if f == "limit" {
-			return "limit-damaged" // whatever else is damaged too: the allocation limit cannot be trusted
+			// Whatever else is damaged too: the allocation limit cannot be trusted. Where the damaged
+			// value points decides what the library can still know.
+			region := "unknown"
+			for _, tok := range strings.Fields(desc) {
+				if strings.HasPrefix(tok, "limit=") {
+					var v uint64
+					fmt.Sscanf(strings.TrimPrefix(tok, "limit="), "%v", &v)
+					switch {
+					case v == 0:
+						region = "zero"
+					case v < uint64(zzvC05TableEnd):
+						region = "below-table-end"
+					case v < uint64(zzvC05TrueLimit):
+						region = "inside-records"
+					default:
+						region = "at-or-beyond-records"
+					}
+				}
+			}
+			return "limit-damaged(" + region + ")"
 		}
 	}
 	return strings.Join(fields, "+")
 }
+
+// zzvC05TableEnd / zzvC05TrueLimit describe the undamaged base file of the case at hand.
+var zzvC05TableEnd, zzvC05TrueLimit uint32
